@@ -448,9 +448,14 @@ class Dx:
                      self.all_kids(e, inc)))))))
         return [self.F(e, inc) == body, NCH(e) >= 0]
 
-    def _kids(self, e, k, inc):
+    def _kids(self, e, k, inc, hint=True):
         k1 = z3.simplify(k - 1)
-        return prefix_def(self.KIDS(e, k, inc), k, cc(self.KIDS(e, k1, inc), self.F(CH(e, k1), inc)))
+        c = CH(e, k1)
+        tc = TAG(c)
+        # consequence of the definition of dx at the child (the definition itself is only unfolded where dx(child) occurs in the
+        # VC): an excluded element contributes nothing -- needed by a caller that skips such a child without calling the walker
+        excluded = z3.Implies(z3.And(k > 0, z3.Not(is_ac(tc)), z3.Or(is_fb(tc), tc == W_MOVEFROM)), self.F(c, inc) == lit(""))
+        return prefix_def(self.KIDS(e, k, inc), k, cc(self.KIDS(e, k1, inc), self.F(c, inc))) + ([excluded] if hint else [])
 
     def run_item(self, c, inc):
         return z3.If(TAG(c) == W_T, self.h(TEXT(c)), z3.If(is_brk(TAG(c)), self.ws, self.F(c, inc)))
@@ -461,7 +466,7 @@ class Dx:
         return prefix_def(self.RUN(e, k, inc), k, cc(self.RUN(e, k1, inc), self.run_item(c, inc))) + [
                 z3.Implies(TEXT_NONE(c), TEXT(c) == lit("")),
                 z3.Implies(is_brk(TAG(c)), NCH(c) == 0)           # OOXML-SCHEMA: w:tab / w:br / w:cr are empty elements
-                ] + self._f(c, inc) + self._kids(c, NCH(c), inc)  # (definition instances at the child, so that dx(empty element) == "")
+                ] + self._f(c, inc) + self._kids(c, NCH(c), inc, hint=False)  # (definition instances at the child, so that dx(empty element) == "")
 
 
 DXN = Dx("nw", NW, "", "")
@@ -1427,7 +1432,7 @@ def lemmas():
         # sq image in D-form: every boundary contributes its own blank (leaf texts here contain no whitespace)
         dform = lambda s_: "".join(" " if ch.isspace() else ch for ch in s_)
         for nm, D, h, f in (("nw", DXN, NW, T.nw_lit), ("sq", DXS, SQ, dform)):
-            defs = ground_defs(nodes, [lambda e, D=D: D._f(e, inc)], [lambda e, k, D=D: D._kids(e, k, inc), lambda e, k, D=D: D._run(e, k, inc)])
+            defs = ground_defs(nodes, [lambda e, D=D: D._f(e, inc)], [lambda e, k, D=D: D._kids(e, k, inc, hint=False), lambda e, k, D=D: D._run(e, k, inc)])   # (ground: dx is defined at every node)
             goal = D.all_kids(root, inc) == lit(f(want))
             out.append((f"C02/spec::dx_{nm}/lemma#known-answer.{name}", facts + defs, goal))
     return out
@@ -1452,6 +1457,7 @@ FUNC_OF_CHECK = {
     "html.source": "html_extractor.py::read_html",
     "rtf.source": "rtf_extractor.py::read_rtf",
     "pptx.shapes": "pptx_extractor.py::read_pptx",
+    "plain.decode": "plain_extractor.py::read_plain_text",
     "epub.tables": "epub_extractor.py::read_epub.iterate_tables",
     "odp.tables": "odp_extractor.py::read_odp.iterate_tables",
     "epub.source": "epub_extractor.py::read_epub",
@@ -1607,13 +1613,125 @@ def fragment_obligations(repo, tier):
         r3 = ods_fragment(repo, reg, uni, pre3)
     except Exception as e:  # noqa
         r3 = {"obligations": _unknown(pre3, ODS_BLOCK_IDS, f"{type(e).__name__}: {e}", f"{ODS}::_extract_sheet"), "functions": []}
+    pre4 = "C02/xls_extractor.py::read_xls/block#"
+    try:
+        r4 = xls_fulltext_fragment(repo, reg, uni, pre4)
+    except Exception as e:  # noqa
+        r4 = {"obligations": _unknown(pre4, XLS_BLOCK_IDS, f"{type(e).__name__}: {e}", f"{XLS}::read_xls"), "functions": []}
     for r, pfx, ids, fn in ((r1, pre, ODP_BLOCK_IDS, f"{ODP}::_extract_slide"), (r2, pre2, PPTX_BLOCK_IDS, f"{PPTX}::_process_slide_from_context"),
-                            (r3, pre3, ODS_BLOCK_IDS, f"{ODS}::_extract_sheet")):
+                            (r3, pre3, ODS_BLOCK_IDS, f"{ODS}::_extract_sheet"), (r4, pre4, XLS_BLOCK_IDS, f"{XLS}::read_xls")):
         have = {o["id"] for o in r["obligations"]}
         r["obligations"] += _unknown(pfx, [l for l in ids if pfx + l not in have], "fragment produced no verification condition for this clause", fn)
         obls += r["obligations"]
         fns += r.get("functions", [])
+    obls += plain_policy(repo)
     return {"obligations": obls, "functions": fns, "undecided": undecided}
+
+
+# plain_extractor._detect_and_decode: the decoded text must come from ALL the bytes and from an encoding judged on all of them
+# (a detector that sees only a part of the file is blind to the rest: wrong codec -> characters lost / replaced).  Data-flow
+# policy on the real AST: every detector call receives the content parameter itself.  Any other shape (a slice, a sample, a
+# derived buffer) is not refuted here -- it is `unknown`, and the native search over large files decides.
+def plain_policy(repo):
+    import ast
+    from pyvc import loader
+    from pyvc.flow import ground_obligation
+    PL = "sharepoint2text/parsing/extractors/plain_extractor.py"
+    oid = "C02/plain_extractor.py::_detect_and_decode/policy#encoding-detected-on-the-whole-content"
+    try:
+        mod = loader.module(PL, repo)
+        fn = mod.functions.get(find_fn(PL, "_detect_and_decode", mentions=["from_bytes", "decode"], nparams=1))
+        if fn is None:
+            return [dict(ground_obligation(oid, False, "decoder not found", PL, definite=False), function=f"{PL}::_detect_and_decode")]
+        param = fn.args.args[0].arg
+        calls = [n for n in ast.walk(fn) if isinstance(n, ast.Call) and isinstance(n.func, ast.Name) and n.func.id == "from_bytes"]
+        rebound = any(isinstance(n, ast.Name) and n.id == param and isinstance(n.ctx, ast.Store) for n in ast.walk(fn))
+        # other names of the same object: bound exactly once in the function, by `name = <content or such a name>`
+        stores = {}
+        for n in ast.walk(fn):
+            if isinstance(n, ast.Name) and isinstance(n.ctx, ast.Store):
+                stores[n.id] = stores.get(n.id, 0) + 1
+        same = {param}
+        for _ in range(4):
+            for n in ast.walk(fn):
+                if (isinstance(n, ast.Assign) and len(n.targets) == 1 and isinstance(n.targets[0], ast.Name) and stores.get(n.targets[0].id) == 1
+                        and isinstance(n.value, ast.Name) and n.value.id in same):
+                    same.add(n.targets[0].id)
+
+        def subject(c):     # the detector's first positional argument, or its only keyword argument holding the data
+            if c.args:
+                return c.args[0]
+            kw = [k.value for k in c.keywords if k.arg in ("sequences", "sequence", "data", "content")]
+            return kw[0] if len(kw) == 1 else None
+        ok = bool(calls) and not rebound and all(isinstance(subject(c), ast.Name) and subject(c).id in same for c in calls)
+        why = "" if ok else "detector argument(s): " + ", ".join(ast.unparse(subject(c)) if subject(c) is not None else "?" for c in calls)
+        return [dict(ground_obligation(oid, ok, why, PL, kind="policy", definite=False), function=f"{PL}::_detect_and_decode")]
+    except Exception as e:  # noqa
+        return [dict(ground_obligation(oid, False, f"{type(e).__name__}: {e}", PL, definite=False), function=f"{PL}::_detect_and_decode")]
+
+
+# xls_extractor.read_xls: the expression that assembles the document's full text from the sheets.  Statement: the text of every
+# sheet is part of get_full_text() (XlsContent.get_full_text returns this field), once, in sheet order -- whatever else a
+# sheet object says about itself (its `data` rows may be empty although its text is not: the first row is the header).
+XLS_BLOCK_IDS = ["full-text-holds-every-sheet-text"]
+
+
+def xls_fulltext_fragment(repo, reg, uni, pre):
+    import ast
+    import builtins
+    import itertools
+    from pyvc import loader, verify
+    from pyvc.state import Frame, State, HeapObj
+    fq = f"{XLS}::read_xls"
+    mod = loader.module(XLS, repo)
+    fnode = mod.functions.get("read_xls")
+    if fnode is None:
+        return {"obligations": _unknown(pre, XLS_BLOCK_IDS, "function not found", fq)}
+    sites = [k.value for n in ast.walk(fnode) if isinstance(n, ast.Call) for k in n.keywords if k.arg == "full_text"]
+    if len(sites) != 1:
+        return {"obligations": _unknown(pre, XLS_BLOCK_IDS, f"{len(sites)} full_text= site(s)", fq)}
+    expr = sites[0]
+    if isinstance(expr, ast.Name):          # assembled earlier: take the (single) assignment to that name
+        asg = [n.value for n in ast.walk(fnode) if isinstance(n, ast.Assign) and len(n.targets) == 1 and isinstance(n.targets[0], ast.Name) and n.targets[0].id == expr.id]
+        if len(asg) != 1:
+            return {"obligations": _unknown(pre, XLS_BLOCK_IDS, "full text assembled in several steps", fq)}
+        expr = asg[0]
+    bound = {t.id for x in ast.walk(expr) if isinstance(x, ast.comprehension) for t in ast.walk(x.target) if isinstance(t, ast.Name)}
+    free = {x.id for x in ast.walk(expr) if isinstance(x, ast.Name) and isinstance(x.ctx, ast.Load)} - bound
+    free = sorted(n for n in free if n not in mod.assigns and n not in mod.functions and n not in mod.classes and n not in mod.imports and not hasattr(builtins, n))
+    if len(free) != 1:
+        return {"obligations": _unknown(pre, XLS_BLOCK_IDS, f"sheet list not recognised ({free})", fq)}
+    ex = EXECUTOR(mod, reg, uni)
+    ex.oid_prefix = "C02/xls_extractor.py::read_xls"
+    for k in (0, 1, 2):
+        for empties in itertools.product((True, False), repeat=k):
+            st = State()
+            texts, objs = [], []
+            for i, no_data in enumerate(empties):
+                t = z3.String(f"sheet{i}.text")
+                texts.append(t)
+                data = VRef(st.alloc(HeapObj("list", [] if no_data else [VUnk("row")], None, False), ex.refs))
+                objs.append(VRef(st.alloc(HeapObj("obj", {"text": VStr(t), "data": data, "name": VStr(z3.String(f"sheet{i}.name"))}, "XlsSheet", False), ex.refs)))
+            env = {free[0]: VRef(st.alloc(HeapObj("list", objs, None, False), ex.refs))}
+            st.frames = [Frame(env, None, fnode)]
+            ex.cur_fn_stack.append(fnode)
+            ex.sinks.append([])
+            try:
+                res = ex.ev(expr, st)
+            except X.Unsupported as e:
+                return {"obligations": _unknown(pre, XLS_BLOCK_IDS, "OUT-OF-SUBSET " + str(e), fq)}
+            finally:
+                ex.sinks.pop()
+                ex.cur_fn_stack.pop()
+            for (s2, v) in res:
+                if not isinstance(v, VStr):
+                    s2.assume(X.ABSTRACTED)
+                    goal = z3.BoolVal(False)
+                else:
+                    goal = NW(v.t) == cc(*[NW(t) for t in texts]) if texts else NW(v.t) == lit("")
+                ex.add_vc("block", XLS_BLOCK_IDS[0], s2.pc, goal, loc=f"{XLS}:{expr.lineno}")
+    obls = [dict(verify.discharge(ob, None, {}), function=fq) for ob in ex.obls.values()]
+    return {"obligations": obls, "functions": [dict(mod.fn_info("read_xls"), obligations=len(obls))]}
 
 
 # ods_extractor._extract_sheet: the places that DROP or COLLAPSE cells / rows (trailing-row trimming, large repeats of blank
